@@ -654,6 +654,84 @@ pub fn run(ctx: &'static Ctx) {
             });
         });
     }
+    // G10: the same input generated forty times in a row on one thread (anything the generators
+    // keep between calls): shifted multi-byte streams after every variant prefix
+    {
+        let chars = ["\u{e9}", "\u{20ac}", "\u{1f600}"];
+        let per = (chars.len() * 4 * 2) as u64;
+        sweep(ctx, "G10: forty consecutive generations from one input", prefixes.len() as u64 * per, "26 prefixes x {é, €, 😀} streams x shift 0..=3 x total length {700, 2000}: each input is generated from 40 times in a row; every generation is checked", move |idx, l| {
+            let (gen, p) = &pr[(idx / per) as usize];
+            let mut r = idx % per;
+            let total = if r % 2 == 0 { 700 } else { 2000 };
+            r /= 2;
+            let shift = (r % 4) as usize;
+            let ch = chars[(r / 4) as usize];
+            let mut input = p.clone();
+            input.extend(std::iter::repeat(b'a').take(shift));
+            while input.len() < total {
+                input.extend_from_slice(ch.as_bytes());
+            }
+            input.extend(std::iter::repeat(0u8).take(16));
+            for _ in 0..40 {
+                let (v, class) = check(*gen, &input);
+                l.bump(class);
+                if class != "ran out of bytes" {
+                    l.nontrivial += 1;
+                }
+                if !v.ok {
+                    l.fail(ctx, idx, v, || case(*gen, &input, "G10 (depends on earlier generations on the same thread)"));
+                    break;
+                }
+            }
+        });
+    }
+    // G11: a short explicit length word, then text that ends in a lead byte exactly at the end of
+    // the window, followed by every short sequence of continuation-range bytes (also the ones
+    // that are forbidden after that lead byte)
+    {
+        let leads = [0xc2u8, 0xdf, 0xe0, 0xed, 0xef, 0xf0, 0xf4];
+        let conts = [0x80u8, 0x8f, 0x90, 0x9f, 0xa0, 0xbf];
+        let ks = [1u64, 2, 5, 16, 64];
+        let words: u64 = (1..=3u32).map(|k| 6u64.pow(k)).sum();
+        let per = leads.len() as u64 * ks.len() as u64 * words * 2;
+        sweep(ctx, "G11: a lead byte at the end of an explicit text window, followed by continuation-range bytes", prefixes.len() as u64 * per, "26 prefixes x window length {1, 2, 5, 16, 64} x lead {C2, DF, E0, ED, EF, F0, F4} x every sequence of 1..=3 bytes over {80, 8F, 90, 9F, A0, BF} x {followed by zeros (everything else absent), followed by 2500 ASCII bytes}", move |idx, l| {
+            let (gen, p) = &pr[(idx / per) as usize];
+            let mut r = idx % per;
+            let zeros_after = r % 2 == 0;
+            r /= 2;
+            let mut w = r % words;
+            r /= words;
+            let k = ks[(r % ks.len() as u64) as usize];
+            let lead = leads[(r / ks.len() as u64) as usize];
+            let mut len = 1u32;
+            while w >= 6u64.pow(len) {
+                w -= 6u64.pow(len);
+                len += 1;
+            }
+            let mut input = p.clone();
+            input.extend_from_slice(&k.to_le_bytes());
+            input.extend(std::iter::repeat(b'a').take(k as usize - 1));
+            input.push(lead);
+            for j in (0..len).rev() {
+                input.push(conts[((w / 6u64.pow(j)) % 6) as usize]);
+            }
+            if zeros_after {
+                // everything that follows is absent / empty
+                input.extend(std::iter::repeat(0u8).take(300));
+            } else {
+                input.extend(std::iter::repeat(b'a').take(2500));
+                input.extend(std::iter::repeat(0u8).take(16));
+            }
+            let (v, class) = check(*gen, &input);
+            l.bump(class);
+            if class != "ran out of bytes" {
+                l.nontrivial += 1;
+            }
+            if !v.ok {
+                l.fail(ctx, idx, v, || case(*gen, &input, "G11"));
+            }
+        });
+    }
     // G4: UTF-8 pattern words repeated to lengths around every capacity
     let letters: [&[u8]; 8] = [b"a", "é".as_bytes(), "€".as_bytes(), "😀".as_bytes(), &[0x80], &[0xc3], &[0xe2, 0x82], &[0xf0, 0x9f, 0x98]];
     let g4words: u64 = (1..=4u32).map(|k| 8u64.pow(k)).sum();
